@@ -160,6 +160,15 @@ fn c08_call_long_p11() {
     kani::cover!(true, "long call");
 }
 
+/// a call of 60 bytes from key position 11: position and length concrete (cheap and robust whatever loop
+/// structure the implementation uses), key, chaining byte and data symbolic
+#[kani::proof]
+#[kani::unwind(62)]
+fn c08_call_mid() {
+    call_is_steps::<60>(11, 60, 2);
+    kani::cover!(true, "mid call");
+}
+
 /// C08: splitting a call anywhere (including empty pieces) changes nothing; paired halves round-trip
 /// under different chunking on the two sides.
 const SPL: usize = 8;
